@@ -10,7 +10,8 @@ keep building when a proof breaks.
   EXPR_STMT, BLOCK, ASM), together with the typing side condition.
 * `typedE/typedA/typedS` — the typing side condition alone, for every node kind: the long-double-ness
   of every node's type agrees with that of its operands the way `add_type` (type.c) builds trees.
-* `okN` — scope of the `depth` theorems: struct/union arguments of calls have at least one byte.
+* `okN` — side condition of the `depth` theorems: the sizes of struct/union arguments of calls are not
+  negative (well-formedness of the type table).
 -/
 import ChibiVerif.Model.Codegen
 
@@ -50,12 +51,13 @@ def notAlloca : Node → Bool
   | .var _ (some v) => v.name != some "alloca"
   | _ => true
 
-/-- struct/union arguments have at least one byte (outside: known finding C20-empty-struct-arg) -/
+/-- the sizes of struct/union arguments are not negative (well-formedness of the type table, true of
+    every dump; an empty struct, size 0, is an ordinary argument since /repo b298aee) -/
 def structArgsOKb : NodeList → Bool
   | .nil => true
   | .cons a rest =>
     (match a.ty? with
-     | some t => !t.isStructOrUnion || decide (1 ≤ t.size)
+     | some t => !t.isStructOrUnion || decide (0 ≤ t.size)
      | none => true) && structArgsOKb rest
 
 mutual
@@ -203,7 +205,7 @@ def countStmtList (env : Env) : NodeList → Nat × Nat
 end
 
 mutual
-/-- every call in the tree passes only struct/union arguments of at least one byte -/
+/-- the struct/union arguments of every call in the tree have a size that is not negative -/
 def okN : Node → Bool
   | .null | .nullExpr _ | .num .. | .var .. | .vlaPtr .. | .memzero .. | .labelVal .. | .goto_ .. | .asm_ .. => true
   | .binop _ _ a b | .assign _ a b | .comma _ a b | .logand _ a b | .logor _ a b | .exch _ a b => okN a && okN b
